@@ -31,6 +31,10 @@ class Result:
         self.labels = []
         self.known = ""
         self.inconclusive = ""
+        # True for failures read off a recorded trace/record of a real
+        # multi-threaded run: the violation was observed, but re-running the
+        # same case need not reproduce the interleaving
+        self.schedule_dependent = False
 
     def fail(self, msg):
         if self.ok:
@@ -66,7 +70,8 @@ def _worker(args):
     sub = _REGISTRY[subname]
     stats = {"evaluations": 0, "nontrivial": 0, "hashes": [], "labels": {},
              "samples": [], "known_excluded": 0, "failed": False, "fail_msg": "",
-             "fail_case": None, "inconclusive": [], "known_hits": []}
+             "fail_case": None, "inconclusive": [], "known_hits": [],
+             "schedule_dependent": False}
     seen = set()
     state = {"failing": None, "budget": sub.shrink_budget, "best": None,
              "best_msg": "", "n": 0}
@@ -114,6 +119,7 @@ def _worker(args):
             state["failing"] = True
             state["best"] = case
             state["best_msg"] = r.msg
+            state["schedule_dependent"] = bool(r.schedule_dependent)
             raise AssertionError(r.msg)
 
     test = given(sub.strategy)(body)
@@ -128,11 +134,14 @@ def _worker(args):
         stats["failed"] = True
         stats["fail_msg"] = state["best_msg"]
         stats["fail_case"] = state["best"]
+        stats["schedule_dependent"] = state.get("schedule_dependent", False)
     except Exception:
         if state["best"] is not None:
+            # e.g. hypothesis' Flaky: the failing example did not fail again
             stats["failed"] = True
             stats["fail_msg"] = state["best_msg"]
             stats["fail_case"] = state["best"]
+            stats["schedule_dependent"] = state.get("schedule_dependent", False)
         else:
             stats["inconclusive"].append("worker exception: " + traceback.format_exc()[-1500:])
     stats["hashes"] = sorted(seen)
@@ -222,7 +231,9 @@ def main(pid, script_file, subs):
                 fn = os.path.join(faildir, "%s-%s-%s.json" % (pid, sub.name, case_hash(st["fail_case"])))
                 with open(fn, "w") as f:
                     json.dump({"script": script, "sub": sub.name, "case": st["fail_case"],
-                               "msg": st["fail_msg"]}, f, indent=1, sort_keys=True)
+                               "msg": st["fail_msg"],
+                               "schedule_dependent": st.get("schedule_dependent", False)},
+                              f, indent=1, sort_keys=True)
                 agg["fail_file"] = fn
                 print("FAILCASE %s %s" % (sub.name, fn))
                 rc = max(rc, 1)
